@@ -57,6 +57,7 @@ def run(ctx):
 
     _dt.promote_double(ctx)  # (tools/wiring.py) sparse values pass through the promotion helper
     _c10.compat(ctx)
+    _c10.compat_use(ctx)
     from . import c09 as _c09
 
     _c09.edge_evaluators(ctx)  # (tools/wiring.py) sparse forms and projections integrate space.evaluate of RWG / SNC bases
